@@ -145,7 +145,13 @@ def build(spec, p, symbolic, hprio=None):
             kw["facility_priority_rule"] = ResourcePriorityRuleMode(ts["frule"])
         if ts.get("wprule") is not None:
             kw["workplace_priority_rule"] = WorkplacePriorityRuleMode(ts["wprule"])
-        t = TaskCls("t%d" % ti, **kw)
+        if ts.get("subproject"):
+            from pDESy.model.base_subproject_task import BaseSubProjectTask
+
+            kw.pop("auto_task")
+            t = BaseSubProjectTask(file_path=ts.get("file"), name="t%d" % ti, **kw)
+        else:
+            t = TaskCls("t%d" % ti, **kw)
         t._hprio = ti if hprio is None else hprio[ti]
         t._idx = ti
         M.tasks.append(t)
